@@ -21,9 +21,12 @@ for name in names:
     if not m:
         meta["confirm"] = {"error": out[-500:]}
     else:
+        prev_suite = (meta.get("confirm") or {}).get("suite")
         meta["confirm"] = {"demo_exit_clean": int(m.group(1)), "demo_exit_patched": int(m.group(2)), "imports": m.group(3) == "ok",
                            "base_commit": subprocess.run(["git", "-C", "/repo", "rev-parse", "--short", "HEAD"], capture_output=True, text=True).stdout.strip()}
         sm = re.search(r"suite: stable_pass (\d+) passing with the change (\d+) not passing: (.*)", out)
+        if prev_suite and not sm:
+            meta["confirm"]["suite"] = prev_suite          # keep an earlier suite confirmation (seed_suite_batch.py)
         if sm:
             meta["confirm"]["suite"] = {"stable_pass": int(sm.group(1)), "passing_with_change": int(sm.group(2)), "not_passing": sm.group(3)}
         if os.path.isdir(wt):
